@@ -14,6 +14,10 @@
     re-assignable afterwards (`setCeiling`); every execution records the ceiling in force;
   * whether a capability-subset test dominates `tool.execute` on each of the two code paths is NOT assumed:
     it is the pair of booleans `Guards`, regenerated from the source by the extractor (`Operon.Gen.MitoCaps`);
+  * a requested name is resolved by exact key equality of the dict (`Registry.lookup`): no case folding, trimming or
+    Unicode normalisation by the library (Python's parser normalises the identifiers of an EXPRESSION before the
+    library sees them: the callee of the model is the parsed identifier); checked against the real entry points on a
+    table of look-alike spellings (`Operon.Gen.MitoCaps.nameTable`);
   * the tool object is fetched from the registry ONCE per request; the capability test and `execute` use that
     object.  Between the test and `execute` the arguments are evaluated (`_compute_node` on the expression pathway,
     `**call.arguments` on the structured path), and that evaluation may re-enter the public registration API
@@ -131,6 +135,22 @@ inductive Callee where
   | name (n : String)              -- `ast.Call` whose func is `ast.Name n`
   | notName                        -- `ast.Call` with any other callee
   | notCall                        -- expression is not a call (or does not parse)
+  deriving Repr, DecidableEq
+
+/-- one row of the name-resolution table obtained by running the real code: a tool registered under the spelling `reg`,
+    requested under the spelling `req` (`parsed` = the callee Python's parser reads in the expression `<req>()`): did the
+    body run per entry point on an unrestricted engine (for the auto pathway together with the detection), and did it
+    run on any entry point when the tool is outside the ceiling -/
+structure NameRow where
+  reg : String
+  req : String
+  parsed : Callee
+  callRan : Bool
+  metRan : Bool
+  autoOx : Bool
+  autoRan : Bool
+  loopRan : Bool
+  deniedRan : Bool
   deriving Repr, DecidableEq
 
 /-- what `metabolize` decides before dispatch; on another pathway the arguments of the call are evaluated only when
